@@ -512,7 +512,7 @@ func tryReplay(P *Program, repo string, o *Obligation, scratch string) (bool, ma
 
 var _ = ssa.NewProgram
 
-var verifierOnlyRe = regexp.MustCompile(`\b(ev[A-Z]\w*|closed|ownsChan|chanCap|iterFresh|onceDone|closure[A-Z]\w*|holds|holdsR|sameMap|sameFunc|fresh|arrayOf)\s*[\[(]`)
+var verifierOnlyRe = regexp.MustCompile(`\b(ev[A-Z]\w*|closed|ownsChan|chanCap|iterFresh\w*|onceDone|closure[A-Z]\w*|holds|holdsR|sameMap|sameFunc|fresh|arrayOf)\s*[\[(]`)
 
 // verifierOnly: the clause (or a let it can see) uses a builtin whose Go version is a stub.
 func verifierOnly(fc *FuncContract, c *Clause) bool {
